@@ -419,17 +419,17 @@ func runOne(sc *scenario, prefix []int32) runResult {
 }
 
 type stats struct {
-	Scenario   string `json:"scenario"`
-	Schedules  int    `json:"schedules"`
-	Points     int    `json:"points"`
-	MaxPoints  int    `json:"max_points"`
-	Bound      int    `json:"preemption_bound"`
-	Unbounded  bool   `json:"unbounded"`
-	Violation  string `json:"violation,omitempty"`
-	Schedule   string `json:"schedule,omitempty"`
-	Distinct   int    `json:"distinct_thread_orders"`
-	Truncated  bool   `json:"truncated"`
-	MaxSched   int    `json:"max_schedules"`
+	Scenario  string `json:"scenario"`
+	Schedules int    `json:"schedules"`
+	Points    int    `json:"points"`
+	MaxPoints int    `json:"max_points"`
+	Bound     int    `json:"preemption_bound"`
+	Unbounded bool   `json:"unbounded"`
+	Violation string `json:"violation,omitempty"`
+	Schedule  string `json:"schedule,omitempty"`
+	Distinct  int    `json:"distinct_thread_orders"`
+	Truncated bool   `json:"truncated"`
+	MaxSched  int    `json:"max_schedules"`
 }
 
 func fmtSched(p []int32) string {
@@ -458,6 +458,7 @@ func main() {
 	bound := flag.Int("bound", -1, "preemption bound (-1: unbounded)")
 	replay := flag.String("replay", "", "run exactly this schedule (comma separated choices)")
 	maxSched := flag.Int("max", 2000000, "maximum number of schedules")
+	free := flag.Int("free", 0, "auxiliary: run the scenario's thread bodies N times as free-running goroutines (no controlled scheduler)")
 	flag.Parse()
 	scs := scenarios()
 	if *scName == "" {
@@ -475,6 +476,32 @@ func main() {
 	if sc == nil {
 		fmt.Fprintln(os.Stderr, "unknown scenario")
 		os.Exit(2)
+	}
+	if *free > 0 {
+		// cross-check that the controlled scheduler hides nothing: the same bodies, free running, under -race
+		runtime.GOMAXPROCS(4)
+		for k := 0; k < *free; k++ {
+			bodies, exp, final := sc.build()
+			res := make([]tres, len(bodies))
+			var wg sync.WaitGroup
+			for i := range bodies {
+				wg.Add(1)
+				go func(id int) { defer wg.Done(); bodies[id](&res[id]) }(i)
+			}
+			wg.Wait()
+			for i := range bodies {
+				if exp[i].visited != nil && !sameSet(res[i].visited, exp[i].visited) {
+					fmt.Printf("RESULT {\"scenario\":%q,\"violation\":\"free-running thread %d visited a wrong set\"}\n", sc.name, i)
+					os.Exit(1)
+				}
+			}
+			if m := final(); m != "" {
+				fmt.Printf("RESULT {\"scenario\":%q,\"violation\":%q}\n", sc.name, m)
+				os.Exit(1)
+			}
+		}
+		fmt.Printf("RESULT {\"scenario\":%q,\"schedules\":%d}\n", sc.name, *free)
+		return
 	}
 	st := stats{Scenario: sc.name, Bound: *bound, Unbounded: *bound < 0, MaxSched: *maxSched}
 	orders := map[string]bool{}
